@@ -22,7 +22,7 @@ func init() { core.Register(prop{}) }
 func (prop) ID() string    { return "C10" }
 func (prop) Level() string { return "exploration" }
 func (prop) Rule() string {
-	return "scenario = one rate-limited UDP service (tftp, memcached, snmp, counterstrike), a burst of 1..200 datagrams from source IP A over varying source ports (mixed grammar requests incl. multi-command memcached datagrams, or reply-eliciting requests only), delivered sequentially or from 200 concurrent goroutines, optionally interleaved with bursts from 1..2 other IPs; fresh IPs per scenario. Non-trivial = >=1 reply datagram captured; distinct by (service, scenario parameters, sha of A's first datagram). One scenario in thirty puts a crowd of 300..5000 single-datagram sources in the middle of A's burst of 24 reply-eliciting requests."
+	return "scenario = one rate-limited UDP service (tftp, memcached, snmp, counterstrike), a burst of 1..200 datagrams from source IP A over varying source ports (mixed grammar requests incl. multi-command memcached datagrams, or reply-eliciting requests only), delivered sequentially or from 200 concurrent goroutines, optionally interleaved with bursts from 1..2 other IPs; fresh IPs per scenario. Non-trivial = >=1 reply datagram captured; distinct by (service, scenario parameters, sha of A's first datagram). One scenario in thirty puts a crowd of 300..5000 single-datagram sources in the middle of A's burst of 24 reply-eliciting requests. Reflect scenarios: after its first datagrams a source sends 60 more built from the replies it got (the last four bytes of a reply appended to a request, a reply echoed whole)."
 }
 func (prop) Assumptions() []string {
 	return []string{"a scenario lasts far less than the 10-minute refill (scenarios longer than 2 min are inconclusive)", "'at most four' is checked on every scenario; 'others do not use up A's allowance' is checked on bursts made of reply-eliciting requests only, where A must still receive min(n,4) replies"}
